@@ -19,16 +19,29 @@ def monitor(case, o):
         if len(set(ws)) > 1:
             out.append(("C07_multi_waiter: waiters on clones of one ticket resolved differently", f"op {k} {op['op']}: {ws}"))
         if any(w is None for w in ws):
-            if op["op"] == "to_wait" and running_at_end:
+            if (op["op"] == "to_wait" or (op["op"] == "raw" and op["ctrl"] == "NextEnding")) and running_at_end:
                 continue        # legitimately waiting for a process that never ends
             out.append(("C07_no_ticket_lost: ticket never resolved although every timer has expired", f"op {k} {op['op']} at {op['at']}"))
     if o["panicked"]:
         out.append(("C07_job_end_releases: the job task panicked", ""))
+    # liveness bound: every control is executed (its ticket resolved) by now + slack of the model at the end of the sends
+    b = case.get("_bound")
+    if b is not None and not any(op["op"] == "raw" and op["ctrl"] == "NextEnding" for op in case["ops"]):
+        for k, (op, ws) in enumerate(zip(case["ops"], o["tickets"])):
+            if op["op"] == "to_wait" or ws[0] is None:
+                continue
+            if ws[0] > b:
+                out.append(("C07_every_ticket_resolves: a control was executed later than the grace periods in effect allow",
+                            f"op {k} {op['op']} at {op['at']} resolved at {ws[0]}, bound {b}"))
     return out
+
+
+monitor.wants_bound = True
 
 
 class C07(C04):
     pid = "C07"
+    coq_targets = ["Run/EvalJob.vo", "Run/EvalC08.vo"]
 
     def correspond(self, tier, seed, deep=False):
         r = rng(seed, "c07x")
